@@ -15,20 +15,26 @@ the order in which they really happened.  All traces are validated by TLC agains
 Trace_HomeRelay.tla: the advertised value must equal the model's after every event, and the C26
 invariants are evaluated on every reconstructed state.
 
-Genuine defect found on the pinned tree: known_findings.d/C26.json (C26_set_status_not_atomic),
-proposed_fixes/C26.diff.
+System level (specs/socket/HomeRelaySystem.tla, bound): RelayActor::on_network_change
+(NetworkChange), the SetHomeRelay messages to the ActiveRelayActors (Recv; a promoted connected
+actor republishes through the URL-guarded set_status) and the actors' connection states.  TLC:
+HomeIsChosen, StatusFresh, OneHomeBelief, BeliefMatchesChoice hold; the deviation PromotedSetsUrl
+(republish with set(url, Connected)) is refuted by NetworkChange(b); NetworkChange(c); Recv(b).
+TLC enumerates the words in which a connected actor handles its promotion only after another home
+relay was chosen (from "a home, b connected"); vh_netrep c26sys drives a real RelayActor against
+three in-process relay servers along each (a cfg-guarded pause point holds an ActiveRelayActor
+before it handles SetHomeRelay; current-thread runtime), records the hook events, and TLC
+validates them against Trace_HomeRelaySystem.tla (a HomeRelayWatch::set that on_network_change
+did not perform is the deviation action TForeignSet) with HomeIsChosen on every state.
 
-Fix check (2026-09-22): with proposed_fixes/C26.diff applied (writers serialised by a mutex, the
-pause point then lies inside the critical section) every word that puts a home change between a
-read and its write blocks at the change, finishes after the write, and all 948 quick traces are
-accepted with no invariant violated and no KNOWN-FINDING line.
-
-Mutation self-test (2026-09-22, pinned tree): the URL comparison of set_status weakened to
-`== Some(url) || self.inner.get().is_some()` (a demoted actor's sequential write is no longer
-dropped) -> exit 1, `VIOLATION ... forced word [set_home(a), skip(b)]: after write(b) the watchable
-advertises b` (sig schedule=write_right_after_read, distinct from the known finding, which was
-still reported as KNOWN-FINDING); undone -> exit 0.  ("(after the fix) lock removed", DESIGN §12,
-is the pinned code itself and is what the known finding reports.)
+History: the pinned tree's get-then-set set_status was found by this check (fixed in /repo
+cd1e730: writers serialised; with the lock the forced words block at the home change and finish
+after the write).
+Seeded changes (bin/seedtest, 2026-09-22): seeded/_incoming/C26/patch2.diff (promotion handler
+publishes with set) -> rc=1, VIOLATION at foreign_set, schedule
+promotion_handled_after_another_home_was_chosen; patch.diff (URL compared before taking the write
+lock) -> rc=1, VIOLATION HomeIsChosen at write, home_changed_between_read_and_write; unchanged
+tree -> exit 0, no KNOWN-FINDING line.  Earlier mutation (URL comparison weakened) -> VIOLATION.
 """
 import json
 import re
@@ -48,7 +54,8 @@ META = {
             "threads (an actor is held between its read and its write), the hook events with the watchable's value after "
             "each step are recorded, and TLC validates every recorded trace against the spec and evaluates the invariants "
             "on each reconstructed state.",
-    "note": "Two relay URLs, three connection states; quick: <= 2 home changes and one set_status call per actor.  "
+    "note": "Two relay URLs; quick: two reported states, <= 2 home changes and one set_status call per actor (thorough: three "
+            "states, more changes/calls); system level: three relays, the words in which a promotion is handled late.  "
             "'Advertised' is the value of the watchable as seen by get() and by a fresh watcher.  Status freshness of the "
             "chosen relay is not part of C26 and not judged.",
     "design_ref": "§6 C26, Appendix A.1",
@@ -60,6 +67,8 @@ STATES3 = '{"Connecting", "Connected", "Disconnected"}'
 def run(ctx):
     if ctx.replay:
         rep = json.load(open(ctx.replay))["replay"]
+        if "sysword" in rep:
+            raise ToolError("replay of a system word: run the quick tier (the word family is small and fixed)")
         outs = run_harness(ctx, [rep], "replay")
         judge(ctx, [rep], outs, "replay")
         return
@@ -68,11 +77,12 @@ def run(ctx):
     ctx.tlc("socket", "HomeRelay", cfg="HomeRelay_Atomic.cfg", mode="mc", constants=mc,
             require_actions=["SetHome", "ClearHome", "SetStatusAtomic"])
     ctx.tlc("socket", "HomeRelay", cfg="HomeRelay_AsWritten.cfg", mode="mc", constants=mc, expect_violation="HomeIsChosen")
-    # growth: RelayActor + ActiveRelayActors with their SetHomeRelay messages and connection state machines around an
-    # atomic watch: the advertised status of the chosen relay is fresh once the messages are delivered (spec only)
+    # system level: RelayActor + ActiveRelayActors with their SetHomeRelay messages and connection state machines
     ctx.tlc("socket", "HomeRelaySystem", mode="mc", constants=dict(MaxChanges=ctx.pick(3, 4), MaxSteps=ctx.pick(4, 6)),
             require_actions=["NetworkChange", "Recv", "Step"])
-    gens = ctx.pick([dict(States=STATES3, MaxChanges=2, MaxStatus=1)],
+    ctx.tlc("socket", "HomeRelaySystem", cfg="HomeRelaySystem_Promoted.cfg", mode="mc",
+            constants=dict(MaxChanges=3, MaxSteps=2), expect_violation="HomeIsChosen")
+    gens = ctx.pick([dict(States='{"Connected", "Disconnected"}', MaxChanges=2, MaxStatus=1)],
                     [dict(States=STATES3, MaxChanges=3, MaxStatus=1),
                      dict(States='{"Connected", "Disconnected"}', MaxChanges=2, MaxStatus=2)])
     for n, consts in enumerate(gens):
@@ -85,6 +95,7 @@ def run(ctx):
         accepted = judge(ctx, words, outs, "g%d" % n)
         if n == 0:
             binding_selftest(ctx, accepted)
+    system(ctx)
     end_to_end(ctx)
     ctx.cov["rule"] = ("every complete word (all set_status calls finished) of SetHome/ClearHome/Read/Skip/Write over two URLs up to "
                        "MaxChanges home changes and MaxStatus calls per actor (exhaustive); a word is non-trivial when a home "
@@ -92,6 +103,123 @@ def run(ctx):
     ctx.cov["exhaustive"] = True
     ctx.assume("the pause point sits between the get and the set of set_status; hook events are emitted by the thread that "
                "performed the step, and the harness runs one step at a time, so event order is the order of the steps")
+
+
+def sys_lines(o):
+    """Merges the hook events of one call into one trace line and carries the advertised value along."""
+    evs = o["events"]
+    blank = {"url": "", "home": "none", "state": "none", "is_home": False, "connected": False, "wrote": False, "wstate": ""}
+    lines = [dict(blank, ev="reset")]
+    cur = ("none", "none")
+    i = 0
+    while i < len(evs):
+        e = evs[i]
+        if e["ev"] == "network_change":
+            ln = dict(blank, ev="net", url=e["url"])
+            if i + 1 < len(evs) and evs[i + 1]["ev"] in ("set", "clear"):
+                i += 1
+                cur = (evs[i]["home"], evs[i]["state"])
+            ln["home"], ln["state"] = cur
+        elif e["ev"] in ("set", "clear"):
+            # HomeRelayWatch::set / clear not preceded by on_network_change: someone else wrote the URL
+            cur = (e["home"], e["state"])
+            ln = dict(blank, ev="foreign_set", url=e["home"], home=cur[0], state=cur[1])
+        elif e["ev"] == "recv":
+            ln = dict(blank, ev="recv", url=e["url"], is_home=e["is_home"], connected=e["connected"])
+            # the guarded republish of a promoted connected actor belongs to the same step
+            j = i + 1
+            if e["is_home"] and e["connected"] and j < len(evs) and evs[j]["url"] == e["url"] and evs[j]["ev"] in ("read", "done"):
+                while evs[j]["ev"] != "done":
+                    j += 1
+                cur = (evs[j]["home"], evs[j]["state"])
+                i = j
+            ln["home"], ln["state"] = cur
+        elif e["ev"] in ("read", "done"):
+            j, wrote, wstate = i, False, ""
+            while evs[j]["ev"] != "done":
+                if evs[j]["ev"] == "write":
+                    wrote, wstate = True, evs[j]["state"]
+                j += 1
+                if j >= len(evs):
+                    return lines          # recording ended inside a call
+            cur = (evs[j]["home"], evs[j]["state"])
+            ln = dict(blank, ev="status", url=e["url"], wrote=wrote, wstate=wstate, home=cur[0], state=cur[1])
+            i = j
+        elif e["ev"] == "final":
+            ln = dict(blank, ev="final", home=e["home"], state=e["state"])
+        else:
+            i += 1
+            continue
+        lines.append(ln)
+        i += 1
+    return lines
+
+
+def system(ctx):
+    """Binding of HomeRelaySystem.tla: a real RelayActor with three in-process relay servers is driven along the words in
+    which a connected ActiveRelayActor handles its promotion only after another home relay was chosen."""
+    res = ctx.tlc("socket", "HomeRelaySystem", cfg="HomeRelaySystem_Gen.cfg", mode="gen", constants=dict(MaxChanges=2),
+                  require_actions=["NetworkChange", "Recv"])
+    words = res.replays
+    if not words:
+        raise ToolError("HomeRelaySystem_Gen produced no words")
+    if ctx.quick:
+        import random
+        words = sorted(words, key=lambda w: json.dumps(w["word"]))
+        random.Random(ctx.seed).shuffle(words)
+        words = words[:20]
+    inp = ctx.write_ndjson("c26-sys.in", [{"word": w["word"]} for w in words])
+    outp = ctx.path("c26-sys.out")
+    ctx.run_bin("vh_netrep", ["c26sys", "--in", inp, "--out", outp], timeout=1800)
+    outs = ctx.read_ndjson(outp)
+    if len(outs) != len(words):
+        raise ToolError("harness returned %d observations for %d words" % (len(outs), len(words)))
+    lines, owner = [], []
+    for wi, o in enumerate(outs):
+        if o.get("env_error"):
+            raise ToolError("system run, word %d %s: %s" % (wi, words[wi]["word"], o["env_error"]))
+        for ei, ln in enumerate(sys_lines(o)):
+            lines.append(ln)
+            owner.append((wi, ei))
+    tf = ctx.write_ndjson("c26-sys.trace", lines)
+    res = ctx.tlc_trace("socket", "Trace_HomeRelaySystem", tf, cfg="Trace_HomeRelaySystem_Batch.cfg", timeout=1800)
+    if res.trace_rejected_at is not None:
+        at = res.trace_rejected_at
+        wi, ei = owner[at - 1] if 0 < at <= len(owner) else (-1, -1)
+        raise ToolError("system trace of word %d not explainable by HomeRelaySystem at line %d: %s; lines of the word: %s"
+                        % (wi, ei, lines[at - 1] if 0 < at <= len(lines) else "eof",
+                           [[x["ev"], x["url"], x["home"], x["state"]] for x, (w2, _) in zip(lines, owner) if w2 == wi]))
+    first = {}
+    for p in res.printed:
+        m = re.match(r'^<<"C26-VIOLATED", "(\w+)", (\d+), (\d+)>>', p)
+        if m:
+            wi, ei = owner[int(m.group(3)) - 1]
+            if wi not in first or ei < first[wi][0]:
+                first[wi] = (ei, m.group(1))
+    confirmed = False
+    for wi, (w, o) in enumerate(zip(words, outs)):
+        wl = [x for x, (w2, _) in zip(lines, owner) if w2 == wi]
+        key = ["sys"] + [[x["ev"], x["url"], x["home"], x["state"]] for x in wl[1:]]
+        ctx.count(case_key=key, nontrivial=True)
+        if wi in first:
+            ei, inv = first[wi]
+            ln = wl[ei]
+            if not confirmed:
+                r1 = ctx.tlc_trace("socket", "Trace_HomeRelaySystem", ctx.write_ndjson("c26-sys-w%d.trace" % wi, wl),
+                                   cfg="Trace_HomeRelaySystem.cfg")
+                if r1.violated != "HomeIsChosen":
+                    raise ToolError("batch and single-word validation disagree on system word %d" % wi)
+                confirmed = True
+            ctx.report({"inv": inv, "at": ln["ev"], "schedule": "promotion_handled_after_another_home_was_chosen",
+                        "advertised": "demoted_url"},
+                       "real RelayActor, word %s (after: b and a connected, a home): after %s(%s) the watchable advertises %s/%s although "
+                       "the RelayActor chose another relay last; final value %s/%s"
+                       % ([s2["op"] + "(" + s2["url"] + ")" for s2 in w["word"]], ln["ev"], ln["url"], ln["home"], ln["state"],
+                          wl[-1]["home"], wl[-1]["state"]), {"sysword": w["word"]})
+        elif len(ctx.cov["samples"]) < 6 and wi < 2:
+            ctx.sample({"system_word": [s2["op"] + "(" + s2["url"] + ")" for s2 in w["word"]], "trace": key[1:],
+                        "skipped_steps": o["skipped"]}, limit=6)
+    ctx.log("system: %d words driven on a real RelayActor, %d with HomeIsChosen violated" % (len(words), len(first)))
 
 
 def end_to_end(ctx):
